@@ -73,12 +73,41 @@ type history struct {
 	sc   *hx.Scripter
 	desc []string
 	retx int
+	// old are sessions that were closed (their numbering is still checked)
+	old   []*simbmc.Session
+	creds hx.Creds
+}
+
+// all returns every BMC-side session of the history.
+func (h *history) all() []*simbmc.Session {
+	return append([]*simbmc.Session{h.bs, h.bs2}, h.old...)
+}
+
+// reopen closes the first session cleanly and opens a new one on the same
+// connection, which takes its place; the new session numbers from 1 again.
+func (h *history) reopen() error {
+	h.w.BMC.Intercept = nil
+	ctx, cancel := h.w.Ctx(3)
+	err := h.sess.Close(ctx)
+	cancel()
+	if err != nil {
+		return fmt.Errorf("close: %w", err)
+	}
+	h.old = append(h.old, h.bs)
+	s, err := h.w.T.NewV2Session(context.Background(), h.creds.Opts())
+	h.sc.Install(h.w.BMC)
+	if err != nil {
+		return fmt.Errorf("open after close: %w", err)
+	}
+	h.sess, h.bs = s, h.w.BMC.Sessions[s.RemoteID]
+	h.desc = append(h.desc, "close first session, open a new one")
+	return nil
 }
 
 func newHistory(suite ref.Suite, seed uint64) (*history, error) {
 	c := hx.Creds{User: "op", Password: []byte("secret"), Priv: 3, Suite: suite, Seed: seed}
 	w := hx.NewWorldFor(c, true)
-	h := &history{w: w, sc: &hx.Scripter{}}
+	h := &history{w: w, sc: &hx.Scripter{}, creds: c}
 	if suite.Integ == ref.IntegNone {
 		ev.Label("session-with-integrity-none")
 	}
@@ -171,11 +200,18 @@ func TestEnumerated(t *testing.T) {
 			h.command(true, pickCmd(n+i), sc)
 			if i == 0 && len(scripts) > 1 {
 				h.command(false, &ipmi.GetSystemGUIDCmd{}, []hx.Outcome{hx.Busy, hx.Final})
+				if n%3 == 0 {
+					// the rest of the history runs on a new session opened after the
+					// first one was closed
+					if err := h.reopen(); err != nil {
+						t.Fatalf("history %v: %v", h.desc, err)
+					}
+				}
 			}
 		}
 		h.command(false, &ipmi.GetChannelAuthenticationCapabilitiesCmd{}, []hx.Outcome{hx.Final})
 		ev.Eval()
-		if err := invariant(h.w.BMC, h.bs); err != nil {
+		if err := invariant(h.w.BMC, h.all()...); err != nil {
 			ev.Violation("TestEnumerated", map[string]any{"history": h.desc}, err.Error())
 			t.Fatalf("history %v: %v", h.desc, err)
 		}
@@ -230,7 +266,7 @@ func TestStateMachine(t *testing.T) {
 			}
 			return sc
 		}
-		steps, strays, numbered, longRuns := 0, 0, false, 0
+		steps, strays, numbered, longRuns, reopens := 0, 0, false, 0, 0
 		t.Repeat(map[string]func(*rapid.T){
 			"sessionCommand": func(t *rapid.T) {
 				if steps >= 60 {
@@ -265,6 +301,15 @@ func TestStateMachine(t *testing.T) {
 				if n >= 16 {
 					longRuns++
 				}
+			},
+			"closeAndOpenAgain": func(t *rapid.T) {
+				if reopens >= 3 {
+					t.Skip("enough")
+				}
+				if err := h.reopen(); err != nil {
+					t.Fatalf("history %v: %v; BMC: %v", h.desc, err, h.w.BMC.AllProblems())
+				}
+				reopens++
 			},
 			"openSecondSession": func(t *rapid.T) {
 				if h.sess2 != nil {
@@ -312,7 +357,7 @@ func TestStateMachine(t *testing.T) {
 				strays++
 			},
 			"": func(t *rapid.T) {
-				if err := invariant(h.w.BMC, h.bs, h.bs2); err != nil {
+				if err := invariant(h.w.BMC, h.all()...); err != nil {
 					t.Fatalf("history %v: %v", h.desc, err)
 				}
 			},
@@ -325,6 +370,9 @@ func TestStateMachine(t *testing.T) {
 		}
 		if longRuns > 0 {
 			ev.Label("unanswered-run>=16")
+		}
+		if reopens > 0 {
+			ev.Label("session-closed-and-another-opened")
 		}
 		if numbered {
 			ev.Label("bmc-numbers-sessionless-packets")
@@ -340,7 +388,7 @@ func TestStateMachine(t *testing.T) {
 }
 
 func TestCoverage(t *testing.T) {
-	ev.RequireLabels(t, 1, "enumeration-complete", "unanswered-run>=16", "session-with-integrity-none", "history-with-retransmission", "two-sessions-interleaved", "stray-in-session-reply-during-sessionless-command", "bmc-numbers-sessionless-packets")
+	ev.RequireLabels(t, 1, "enumeration-complete", "session-closed-and-another-opened", "unanswered-run>=16", "session-with-integrity-none", "history-with-retransmission", "two-sessions-interleaved", "stray-in-session-reply-during-sessionless-command", "bmc-numbers-sessionless-packets")
 }
 
 func min(a, b int) int {
